@@ -216,10 +216,10 @@ PROPS = {
         trusted=REPL_TRUSTED,
     ),
     "C09": dict(
-        theorems=["HC.C09.queue_total", "HC.C09.climb_total", "HC.C09.verify_tree_total_partial", "HC.C09.verify_upgrade_total", "HC.C09.verify_proof_total", "HC.C09.verify_proof_keeps", "HC.C09.create_valueless_proof_total", "HC.C09.create_proof_total", "HC.C09.verify_and_apply_total", "HC.C09.serve_along_history", "HC.C09.serve_on_synced_replica"],
+        theorems=["HC.C09.queue_total", "HC.C09.climb_total", "HC.C09.verify_tree_total_partial", "HC.C09.verify_upgrade_total", "HC.C09.verify_proof_total", "HC.C09.verify_proof_keeps", "HC.C09.create_valueless_proof_total", "HC.C09.create_proof_total", "HC.C09.verify_and_apply_total", "HC.C09.serve_along_history", "HC.C09.serve_on_synced_replica", "HC.C09.peer_never_panics"],
         bridge_modules=["HC.Bridge.Stores"], bridging=STORES_BRIDGE,
         runs=_c09_runs,
-        partial="proved on the model, for all inputs: verify_proof (verify_tree + verify_upgrade + the comparison with the stored node) returns a value or an error for every proof, tree state and key; create_valueless_proof / create_proof return a proof or an error for every request (any node counts, seek offsets, upgrade windows; block index < 2^63, tree-node index < 2^65-1) on every tree whose roots sit at the root positions of its length (create_valueless_proof_total, create_proof_total; the shape holds along every writer history - serve_along_history - and on replicas reached by honest exchanges); verify_and_apply_proof at core level (byte offset under the new roots, oplog entry, bitfield, tree commit, flush) returns true/false/error for every proof (verify_and_apply_total; the commit's panic site is unreachable: verify_proof_keeps). No loop runs out of its fuel. Not covered by the theorems (run only): u64 overflow (the model computes in Nat; the property bounds fields by 2^40) and the root shape of a replica after an arbitrary accepted proof",
+        partial="proved on the model, for all inputs: verify_proof (verify_tree + verify_upgrade + the comparison with the stored node) returns a value or an error for every proof, tree state and key; create_valueless_proof / create_proof return a proof or an error for every request (any node counts, seek offsets, upgrade windows; block index < 2^63, tree-node index < 2^65-1) on every tree whose roots sit at the root positions of its length (create_valueless_proof_total, create_proof_total; the shape holds along every writer history - serve_along_history - and on replicas reached by honest exchanges); verify_and_apply_proof at core level (byte offset under the new roots, oplog entry, bitfield, tree commit, flush) returns true/false/error for every proof (verify_and_apply_total; the commit's panic site is unreachable: verify_proof_keeps). No loop runs out of its fuel. The root shape survives verify_and_apply_proof of every proof (accepted upgrades adopt root positions of a signed prefix, by C04.sound_upgrade), so after any sequence of arbitrary proofs the next proof and request are answered without panic (peer_never_panics; assumptions: no root-list hash collision, the key verifies only what the writer signed, lengths are u64 values). Not covered by the theorems (run only): u64 overflow (the model computes in Nat; the property bounds fields by 2^40)",
         rule="cores: empty, one block, multi-root, with cleared blocks; request tuples with each of block/hash/seek/upgrade absent or at boundary values {0,1,2,len-1,len,len+1,2len,2len+1,2len+2,3,7,2^32,2^40-1,len/2}, on writer and replica; request tuples whose fields all lie inside the log but need not fit each other (any tree node for the hash, any byte for the seek, any upgrade window); proofs: the C04 alteration set; every call under catch_unwind with a 60 s watchdog; follow-up append/probe on the same core; outcome class compared with the Lean model",
         trusted=REPL_TRUSTED, assumptions=["numeric fields below 2^40"],
     ),
